@@ -243,6 +243,21 @@ def replay_conserve(chk, rs, c, variants):
                 if abs(mconc - wantc) > TOL[prec] * scale:
                     _viol(chk, rs, c, "mean_conc", "mean concentration %.12g at slot %d (node %d), expected bg - meanflux*R = %.12g" % (mconc, k, node, wantc), **extra)
                     return
+            # the same budget for sources of very small magnitude (a trace-gas flux of 1e-9, 1e-13 in SI units): the identities
+            # are homogeneous, no absolute threshold may enter
+            if not c["fp"]:
+                for mag in (1e-9, 1e-13):
+                    _, conc_m, flx_m = rs.solve3(q * mag, kw, srf_bg_conc=0.0)
+                    for k, node in enumerate(c["lv"]):
+                        want = float(np.mean(q)) * mag
+                        mflx = float(np.mean(flx_m[k]))
+                        scale = max(float(np.mean(np.abs(flx_m[k]))), abs(want), 1e-300)
+                        R = (z[node] - z[0]) / prof[4][-1] if c["an"] else resistance(z, prof[4], node)
+                        mconc = float(np.mean(conc_m[k]))
+                        scale_c = max(float(np.mean(np.abs(conc_m[k]))), abs(want * R), 1e-300)
+                        if abs(mflx - want) > TOL[prec] * scale or abs(mconc + want * R) > TOL[prec] * scale_c:
+                            _viol(chk, rs, c, "mean_flux", "source of magnitude %g: mean flux %.6g / mean concentration %.6g at slot %d, expected %.6g / %.6g" % (mag, mflx, mconc, k, want, -want * R), **extra)
+                            return
         elif c["fp"] or (c["xm"] == 0 and c["ym"] == 0):
             px, py = g["px"], g["py"]
             qe = np.pad(q, ((py, py), (px, px)))
@@ -796,6 +811,65 @@ def large_grid_scenarios(chk, rs, prop, replay, t):
     return n
 
 
+def interface_levels(chk):
+    """C10 through the configuration layer (`domain.output_levels`, `domain.full_output` -> run_bldfm_single): the k-th slice
+    is the run that asks for the k-th level alone, and its height coordinate is that level's, in the order of the request"""
+    import copy as _copy
+
+    from bldfm import parse_config_dict, run_bldfm_single
+
+    n = 0
+    for fp in (True, False):
+        for an in (False, True):
+            base = {"domain": {"nx": 8, "ny": 6, "xmax": 160.0, "ymax": 90.0, "nz": 8, "modes": [8, 6], "halo": 20.0, "ref_lat": 50.0, "ref_lon": 11.0},
+                    "towers": [{"name": "a", "lat": 50.0003, "lon": 11.0006, "z_m": 4.0}],
+                    "met": {"ustar": 0.35, "mol": -90.0, "wind_speed": 3.0, "wind_dir": 230.0},
+                    "solver": {"footprint": fp, "analytic": an, "closure": "CONSTANT" if an else "MOST", "precision": "double", "surface_flux_shape": "circle"}}
+            singles = {}
+
+            def single(lv):
+                if lv not in singles:
+                    raw1 = _copy.deepcopy(base)
+                    raw1["domain"]["output_levels"] = [lv]
+                    cfg1 = parse_config_dict(raw1)
+                    r1 = run_bldfm_single(cfg1, cfg1.towers[0])
+                    singles[lv] = (np.asarray(r1["conc"]).reshape(6, 8), np.asarray(r1["flx"]).reshape(6, 8), float(np.asarray(r1["grid"][2]).ravel()[0]))
+                return singles[lv]
+
+            for req in ([5, 2, 7], [8, 3], [1, 4, 2, 6], [6, 5, 4], [3], "full"):
+                raw = _copy.deepcopy(base)
+                if req == "full":
+                    raw["domain"]["full_output"] = True
+                    want_levels = list(range(9))
+                else:
+                    raw["domain"]["output_levels"] = list(req)
+                    want_levels = list(req)
+                cfg = parse_config_dict(raw)
+                sc = {"kind": "interface_levels", "footprint": fp, "analytic": an, "request": req}
+                chk.case(json.dumps(sc, sort_keys=True))
+                n += 1
+                try:
+                    res = run_bldfm_single(cfg, cfg.towers[0])
+                except Exception as ex:  # noqa: BLE001
+                    chk.violation("run_bldfm_single with output levels %s raised %r" % (req, ex), sc, klass={"check": "interface_levels"})
+                    continue
+                conc = np.asarray(res["conc"]).reshape(-1, 6, 8)
+                flx = np.asarray(res["flx"]).reshape(-1, 6, 8)
+                Z = np.asarray(res["grid"][2])
+                if conc.shape[0] != len(want_levels):
+                    chk.violation("output levels %s through the configuration return %d slices" % (req, conc.shape[0]), sc, klass={"check": "interface_levels"})
+                    continue
+                for k, lv in enumerate(want_levels):
+                    c1, f1, z1 = single(lv)
+                    scale = max(float(np.max(np.abs(f1))), float(np.max(np.abs(c1))), 1e-300)
+                    zk = float(Z.reshape(len(want_levels), -1)[k, 0]) if Z.size >= len(want_levels) and Z.ndim == 3 else float("nan")
+                    if float(np.max(np.abs(conc[k] - c1))) > 1e-10 * scale or float(np.max(np.abs(flx[k] - f1))) > 1e-10 * scale or (Z.ndim == 3 and zk != z1):
+                        chk.violation("output levels %s through the configuration (%s, %s): slice %d is not the run that asks for level %d alone (flux differs by %.3e relative, height %r vs %r)"
+                                      % (req, "footprint" if fp else "dispersion", "analytic" if an else "numerical", k, lv, float(np.max(np.abs(flx[k] - f1))) / scale, zk, z1), sc, klass={"check": "interface_levels"})
+                        break
+    return n
+
+
 def coordinate_sweep(chk, rs, t):
     """C11 for MANY sizes and domain extents (the bounded model enumerates sizes up to 7 and exact cell sizes): the returned
     coordinate arrays have the shape of the fields, which have the shape of the source, and x = i*dx, y = j*dy - also
@@ -1063,6 +1137,7 @@ def main(prop, families=None):
     )
     if prop == "C10":
         chk.extra["large_column_scenarios"] = large_column_scenarios(chk, rs, t)
+        chk.extra["interface_level_requests"] = interface_levels(chk)
     if prop == "C11":
         chk.extra["coordinate_sweep"] = coordinate_sweep(chk, rs, t)
     if prop in ("C02", "C03", "C04", "C06", "C07"):
